@@ -206,23 +206,23 @@ func (w *World) AnteChain() ([]AnteEntry, error) {
 	if pk == nil {
 		return nil, fmt.Errorf("package ante not loaded")
 	}
-	fd := w.FuncDecl(pk, "NewAnteHandler")
-	if fd == nil {
-		return nil, fmt.Errorf("ante.NewAnteHandler not found")
-	}
+	// the decorator list is the one []sdk.AnteDecorator literal of the application's ante package
+	// (in NewAnteHandler itself or in a function it was moved into)
 	var lits []*ast.CompositeLit
-	ast.Inspect(fd, func(n ast.Node) bool {
-		if cl, ok := n.(*ast.CompositeLit); ok {
-			if tv, ok := pk.TypesInfo.Types[cl]; ok {
-				if sl, ok := tv.Type.Underlying().(*types.Slice); ok && isNamed(sl.Elem(), pkgSDKTypes, "AnteDecorator") {
-					lits = append(lits, cl)
+	for _, file := range pk.Syntax {
+		ast.Inspect(file, func(n ast.Node) bool {
+			if cl, ok := n.(*ast.CompositeLit); ok {
+				if tv, ok := pk.TypesInfo.Types[cl]; ok {
+					if sl, ok := tv.Type.Underlying().(*types.Slice); ok && isNamed(sl.Elem(), pkgSDKTypes, "AnteDecorator") {
+						lits = append(lits, cl)
+					}
 				}
 			}
-		}
-		return true
-	})
+			return true
+		})
+	}
 	if len(lits) != 1 {
-		return nil, fmt.Errorf("expected exactly one []sdk.AnteDecorator literal in NewAnteHandler, found %d", len(lits))
+		return nil, fmt.Errorf("expected exactly one []sdk.AnteDecorator literal in package ante, found %d", len(lits))
 	}
 	anteT := w.LookupType(pkgSDKTypes, "AnteDecorator").Underlying().(*types.Interface)
 	var out []AnteEntry
